@@ -1,5 +1,6 @@
 import NomtModel.Api.Poison
 import NomtModel.Store.Crash3
+import NomtModel.Store.CrashLog
 /-!
 # C14 — A failing commit is reported, poisons the handle and stays atomic
 -/
@@ -48,6 +49,26 @@ theorem T14_4_failed_sync_atomic
     (img : Disk Content MetaRec WalRec LogRec) (himg : IsImage (NomtDisk.run ⟨d0, []⟩ p) img) :
     absOf P img = absOf P d0 ∨ absOf P img = absNew P (NomtDisk.run ⟨d0, []⟩ pre).dur m1 w1 :=
   (sync_crash_atomic P d0 hinert pre post m1 w1 hpre hflushed hwal hseq hpost).1 p hp img himg
+
+/-- T14.4b the same including the rollback log (T4.2 applied to the prefix): tree, table view and live rollback records
+together are exactly the pre- or exactly the post-state. -/
+theorem T14_4b_failed_sync_atomic_with_rollback_log (L : LogParams MetaRec LogRec)
+    (d0 : Disk Content MetaRec WalRec LogRec)
+    (hinert : ∀ b, htView P d0 b = d0.pages File.fHt b)
+    (pre post : List (Ev Content MetaRec WalRec LogRec)) (m1 : MetaRec) (w1 : WalRec)
+    (hpre : ∀ ev ∈ pre, EvPreL P L d0 ev)
+    (hflushed : (NomtDisk.run ⟨d0, []⟩ pre).vol = [])
+    (hwal : (NomtDisk.run ⟨d0, []⟩ pre).dur.wal = some w1)
+    (hseq : P.walSeqn w1 = P.seqn m1)
+    (hpost : PostOKL P L (NomtDisk.run ⟨d0, []⟩ pre).dur m1 w1
+      ⟨applyEff (NomtDisk.run ⟨d0, []⟩ pre).dur (.setMeta m1), []⟩ post)
+    (p : List (Ev Content MetaRec WalRec LogRec))
+    (hp : p <+: pre ++ ([Ev.eff (.setMeta m1), Ev.fsync File.fMeta] ++ post))
+    (img : Disk Content MetaRec WalRec LogRec) (himg : IsImage (NomtDisk.run ⟨d0, []⟩ p) img) :
+    absOfL P L img = absOfL P L d0 ∨
+    absOfL P L img = (absNew P (NomtDisk.run ⟨d0, []⟩ pre).dur m1 w1,
+      absLog L m1 (NomtDisk.run ⟨d0, []⟩ pre).dur.log) :=
+  (sync_crash_atomic_log P L d0 hinert pre post m1 w1 hpre hflushed hwal hseq hpost).1 p hp img himg
 end disk
 
 end Nomt.C14
